@@ -95,7 +95,7 @@ def enc_hrd(w, h):
 def gen_vui(rng, max_num_ref_frames, shape=None):
     """shape: None (random) or dict forcing nal/vcl hrd presence etc."""
     v = {}
-    v["aspect"] = pick(rng, [None, 0, 1, 16, 17, 200, 254, 255])
+    v["aspect"] = rng.choice([None, None] + list(range(0, 19)) + [128, 200, 254, 255, 255])   # every table entry of aspect_ratio_idc
     v["sar"] = (rng.choice([0, 1, 65535]), rng.choice([0, 1, 65535]))
     v["overscan"] = pick(rng, [None, True, False])
     v["vst"] = None if rng.random() < 0.5 else {"vf": rng.randrange(8), "fr": rng.random() < 0.5,
